@@ -742,6 +742,10 @@ where
     where
         V: de::Visitor<'de>,
     {
+        // A symbol reference is read here: its mode ends with it
+        if let Some(NonNativeType::SymbolRef) = self.non_native_type {
+            self.non_native_type = None;
+        }
         let len = match self
             .get_elem_code_or_read_format_code()
             .ok_or_else(|| Error::unexpected_eof("Expecting format code"))??
